@@ -49,11 +49,26 @@ CONFIG = {
              "part: every ordered shape with <= 5 (quick) / <= 6 (thorough) leaves, as is and with a unifurcation "
              "inserted above each node in turn, unit-step heights, x every start node x 7 fixed filters x every "
              "iterator. Non-trivial = tree has >= 3 nodes (pre-, post- and level-order pairwise different); distinct "
-             "= (ordered shape with heights, starts, filters)."),
+             "= (ordered shape with heights, starts, filters). "
+             "History part: tree (3-8 leaves quick / <= 20 thorough, rooted/unrooted/undefined) -> 1-3 cache-filling "
+             "calls (encode_bipartitions, calc_node_ages, calc_node_root_distances) -> 0-3 public restructuring calls "
+             "that refresh nothing (new_child / insert_new_child with a new taxon, remove_child, "
+             "prune_taxa_with_labels, reroot_at_node, prune_subtree, all with default flags; edge.length assignment) "
+             "-> re-snapshot -> every iterator / collection / len() against the CURRENT snapshot; age-order only when "
+             "the case then assigns ultrametric lengths and calls calc_node_ages() explicitly (stale ages are never "
+             "asserted). Enumerated: every ordered shape with 3-4 (quick) / 3-5 (thorough) leaves x 3 cache sets x 5 "
+             "ops x every target. Non-trivial = at least one op; distinct = (shape, rooting, caches, ops). "
+             "Large part (deterministic): caterpillar, balanced, star, random-recursive and bushy (blocks of 1-40 "
+             "children) trees with exactly 1100 / 2050 / 5000 (thorough also 20000) nodes and 1023-1028, 2047-2051 "
+             "nodes x start nodes {seed, largest child subtree, middle of preorder, last node} x {no filter, parity "
+             "filter} x every iterator (in-order only when depth <= 100: the library's in-order is recursive)."),
     "exhaustive_note": {"quick": "all ordered shapes with 1-5 leaves (61) + each with one unifurcation above each node, "
-                                 "x every start node x 7 filters x every iterator",
+                                 "x every start node x 7 filters x every iterator; all ordered shapes with 3-4 leaves "
+                                 "x 3 cache sets x 5 restructuring ops x every target; 36 listed large trees",
                         "thorough": "all ordered shapes with 1-6 leaves (258) + each with one unifurcation above each "
-                                    "node, x every start node x 7 filters x every iterator"},
+                                    "node, x every start node x 7 filters x every iterator; all ordered shapes with "
+                                    "3-5 leaves x 3 cache sets x 5 restructuring ops x every target; 74 listed large "
+                                    "trees"},
     "assumptions": ["filter results are interpreted by truthiness (docstrings speak of True/False only)",
                     "exclude_seed_node / exclude_seed_edge skip the parentless seed node of the tree, not the start "
                     "node of a Node-level iteration",
@@ -62,7 +77,12 @@ CONFIG = {
                     "age-order is asserted on exactly ultrametric trees with dyadic lengths after calc_node_ages(); "
                     "order among equal ages is not asserted",
                     "in-order on a subtree that is not strictly bifurcating must end in TypeError",
-                    "ancestor_iter yields the nearest ancestor first"],
+                    "ancestor_iter yields the nearest ancestor first",
+                    "histories: an exception raised by a cache-filling or restructuring call, or a tree left malformed "
+                    "by it, is counted in the class histogram and not judged here (C03/C07/C08 own those); the "
+                    "traversals are judged on whatever well-formed tree results",
+                    "cached node ages are not expected to follow a restructuring; age-order after a history is only "
+                    "asserted after an explicit calc_node_ages() on re-assigned ultrametric lengths"],
 }
 
 TRUTHY = [True, 1, "x", 2.5, [0]]
@@ -274,6 +294,8 @@ class Probe(object):
         self.edge_ix = dict((id(o._edge), i) for i, o in enumerate(rt.obj))
         self.limit = 3 * self.n + 10
         self.newick = indexed_newick(rt, label)
+        if label and self.n <= 80:
+            self.newick += " (%s)" % label
         self.depth = [0] * self.n
         for i in rt.preorder():
             for c in rt.children[i]:
@@ -956,18 +978,23 @@ def large_spec(family, n_nodes, seed):
 
 
 def large_items(tier):
-    sizes = [1100, 2050, 5000]
+    thorough = tier == "thorough"
     around = [1023, 1024, 1025, 1026, 1027, 1028, 2047, 2048, 2049, 2050, 2051]
     items = []
     for fam in LARGE_FAMILIES:
-        for nn in sizes + ([20000] if tier == "thorough" and fam != "caterpillar" else []):
+        sizes = [1100, 2050]
+        if thorough or fam in ("caterpillar", "star", "random"):
+            sizes.append(5000)
+        if thorough and fam != "caterpillar":
+            sizes.append(20000)
+        for nn in sizes:
             items.append({"family": fam, "nodes": nn, "seed": nn})
     for j, nn in enumerate(around):
-        for fam in LARGE_FAMILIES:
-            if tier == "thorough" or (j + LARGE_FAMILIES.index(fam)) % 2 == 0 or fam == "star":
+        for f, fam in enumerate(LARGE_FAMILIES):
+            # quick: every family right at the 1024 boundary, one family (rotating) at the other sizes
+            if thorough or nn in (1025, 1026, 1027) or j % len(LARGE_FAMILIES) == f:
                 items.append({"family": fam, "nodes": nn, "seed": 7 * nn + 1})
-    # interleave heavy and light items over the shards
-    items.sort(key=lambda it: -it["nodes"])
+    items.sort(key=lambda it: -it["nodes"])  # heavy items spread over the shards
     return items
 
 
